@@ -441,6 +441,9 @@ func c08Run(w *run.Worker) {
 			{"unknown-named-argument", func() *rt.Node { return rt.Call("id", rt.Named("zz", I(1))) }},
 			{"surplus-argument", func() *rt.Node { return rt.Call("one", I(1)) }},
 			{"named-with-variadic", func() *rt.Node { return rt.Call("p", rt.Named("args", I(1))) }},
+			{"positional-and-named-duplicate", func() *rt.Node { return rt.Call("id", I(1), rt.Named("x", I(2))) }},
+			{"named-duplicate", func() *rt.Node { return rt.Call("id", rt.Named("x", I(1)), rt.Named("x", I(2))) }},
+			{"positional-after-named", func() *rt.Node { return rt.Call("id", rt.Named("x", I(1)), I(2)) }},
 		}
 		v1only := map[string]bool{"builtin-arg": true, "len-arg": true, "strfmt-arg": true, "call-named-arg": true, "call-depth-2-named": true}
 		if v1only[c.Name] {
@@ -510,6 +513,67 @@ func c08Run(w *run.Worker) {
 		{"valid-in-outer-after-inner-forin-ended", func(kw func() *rt.Node) ([]*rt.Node, *rt.Node) {
 			return []*rt.Node{rt.ForIn("v", Id("l"), rt.Block(rt.ForIn("u", Id("l"), rt.Block(rt.Continue())), rt.If(Id("c"), rt.Block(kw()))))}, nil
 		}},
+	}
+	// every loop form (all 8 three-clause shapes and for-in, each with an empty and a non-empty body) followed by a stray keyword
+	loopForms := []struct {
+		name string
+		mk   func() *rt.Node
+	}{}
+	for mask := 0; mask < 8; mask++ {
+		for _, empty := range []bool{true, false} {
+			mask, empty := mask, empty
+			loopForms = append(loopForms, struct {
+				name string
+				mk   func() *rt.Node
+			}{fmt.Sprintf("for-shape%d-empty%v", mask, empty), func() *rt.Node {
+				var in, c, st *rt.Node
+				if mask&1 != 0 {
+					in = rt.Assign("=", Id("i"), I(0))
+				}
+				if mask&2 != 0 {
+					c = rt.Bin("<", Id("i"), I(3))
+				}
+				if mask&4 != 0 {
+					st = rt.Assign("=", Id("i"), rt.Bin("+", Id("i"), I(1)))
+				}
+				if empty {
+					return rt.For(in, c, st, rt.Block())
+				}
+				return rt.For(in, c, st, rt.Block(rt.Call("p", Id("i")), rt.If(Id("c"), rt.Block(rt.Break()))))
+			}})
+		}
+	}
+	for _, empty := range []bool{true, false} {
+		empty := empty
+		loopForms = append(loopForms, struct {
+			name string
+			mk   func() *rt.Node
+		}{fmt.Sprintf("forin-empty%v", empty), func() *rt.Node {
+			if empty {
+				return rt.ForIn("v", Id("l"), rt.Block())
+			}
+			return rt.ForIn("v", Id("l"), rt.Block(rt.Continue()))
+		}})
+	}
+	for _, lf := range loopForms {
+		lf := lf
+		bcs = append(bcs,
+			bc{"after-" + lf.name, func(kw func() *rt.Node) ([]*rt.Node, *rt.Node) {
+				k := kw()
+				return []*rt.Node{lf.mk(), k}, k
+			}},
+			bc{"in-if-after-" + lf.name, func(kw func() *rt.Node) ([]*rt.Node, *rt.Node) {
+				k := kw()
+				return []*rt.Node{lf.mk(), rt.Call("p", I(1)), rt.If(Id("c"), rt.Block(), rt.Block(k))}, k
+			}},
+			bc{"valid-in-outer-after-inner-" + lf.name, func(kw func() *rt.Node) ([]*rt.Node, *rt.Node) {
+				return []*rt.Node{rt.ForIn("w", Id("l"), rt.Block(lf.mk(), kw()))}, nil
+			}},
+			bc{"after-nested-" + lf.name, func(kw func() *rt.Node) ([]*rt.Node, *rt.Node) {
+				k := kw()
+				return []*rt.Node{rt.If(Id("c"), rt.Block(rt.ForIn("w", Id("l"), rt.Block(lf.mk())))), k}, k
+			}},
+		)
 	}
 	for _, b := range bcs {
 		for ki, kw := range []func() *rt.Node{rt.Break, rt.Continue} {
@@ -589,7 +653,7 @@ func init() {
 		ID:    "C08",
 		Level: "model_checking",
 		Rule: "every syntactic position (100+ contexts: conditions, every for clause as expression and assignment, bodies, list/map elements at depth, map keys, every index level incl. LHS, slice object and every start/end/step bound in every form where it exists on identifier and literal objects, positional/named call arguments at depth 1-2, both sides of all 6 assignment kinds and tuple assignment, unary/binary/in/paren operands, attribute parts, deep blocks) " +
-			"x every offender (unknown function; for each of 22 builtins every wrong argument count 0..4 and every wrong argument kind its rule forbids) on the v1 check pass; v2: unknown function and every unbindable call shape; break/continue in 7 invalid and 5 valid placements on both passes; " +
+			"x every offender (unknown function; for each of 22 builtins every wrong argument count 0..4 and every wrong argument kind its rule forbids) on the v1 check pass; v2: unknown function and every unbindable call shape; break/continue in 7 invalid and 5 valid hand-written placements plus, for each of the 18 loop forms (8 three-clause shapes and for-in, empty and non-empty body), after the loop, in an if after it, after a nested one, and validly in an outer loop after an inner one — on both passes; " +
 			"function tables: full, each builtin removed, each call entry without check entry; oracle: rejected iff offender present, first error position inside the offender's byte extent; every valid call of every builtin loads in every context",
 		Assumptions: []string{"the per-builtin argument rules are the reference table of DESIGN.md appendix A (arity range and literal-kind constraints)"},
 		Run:            c08Run,
